@@ -258,7 +258,7 @@ def excluded(m: LifeModel, op: dict) -> T.Optional[str]:
         for k in op.get('U', []):
             if k in m.ambig:
                 return X_UAMB
-            if not m.is_override(k):
+            if not m.is_override(k) and not m.is_noop_U(k):
                 return X_U
     if o == 'reconfigure' and set(D) & m.pending_keys():
         return X_D2
@@ -874,7 +874,9 @@ def _strategies() -> T.Any:
         cands = sorted(k for k in (list(m.over) + [SP + ':' + n for n in m.file[SP]]) if m.is_override(k))
         if not cands or not chance(draw, 2, 3):
             # sometimes aim at a non-override too: it is counted as excluded
-            if chance(draw, 1, 15) and m.file[SP]:
+            if chance(draw, 1, 5) and m.file[SP]:
+                # (-U of an option that has nothing to drop: a no-op when the superproject has no option of that name,
+                # otherwise undefined and counted as excluded; what matters is that the -D next to it still takes effect)
                 return [SP + ':' + draw(st.sampled_from(list(m.file[SP])))]
             return []
         return draw(st.lists(st.sampled_from(cands), unique=True, min_size=1, max_size=2))
@@ -1194,7 +1196,87 @@ def _regress_cases() -> T.List[T.Tuple[str, dict]]:
     return out
 
 
+# ---------------------------------------------------------------------------
+# I/O faults while the configuration is being saved ("a configure or reconfigure that fails leaves every persisted value
+# exactly as it was"): the failure is not a rejected value or an error() in the build file but the save itself failing
+
+def _io_fault_worker(arg: T.Tuple[str, str, int, str]) -> T.Optional[dict]:
+    """one (command, fault point): returns a Failure as dict, {'ok': label} or None"""
+    from checks import c09_crash as K
+    cmd, root, k, pyc = arg
+    case = {'variant': 'nolang', 'pre_dir': None, 'history': [['setup', {'o': 'h1', 'n': '7', 'sp:so': 's1'}]],
+            'x': [cmd, {'o': 'changed', 'n': '42'}]}
+    site = K.Site(case, root, pyc)
+    try:
+        site.run_history(inproc=False)
+        log = os.path.join(root, 'count.log')
+        if k == 0:
+            r = K.sub(site.xargs(), pyc, root, K.shim_env(site.B, log))
+            if r.rc != 0:
+                raise HarnessError(f'I/O fault family: the unfaulted command fails: {r!r}')
+            return {'mlist': K.read_mlist(log)}
+        r = K.sub(site.xargs(), pyc, root, K.shim_env(site.B, log, k, 'oserror'))
+        got = K.read_mlist(log)
+        op, path, _ = got[-1] if got else ('?', '?', 0)
+        shown = ' '.join(K.argv_for(cmd, case['x'][1], 'B', 'S'))
+        lst = K.sub(['configure', site.B], pyc, root)
+        vals, ri = site.introspect(False)
+        fcase = {'io_fault': True, 'cmd': cmd, 'k': k, 'op': op, 'path': path}
+        what = f'`meson {shown}` with mutation {k} (`{op} {path}`) failing with ENOSPC ended with exit status {r.rc}; afterwards '
+        if lst.rc != 0 or lst.unhandled:
+            return Failure(f'io-fault/{cmd}:configuration-unreadable', fcase,
+                           what + f'`meson configure B` fails (exit {lst.rc}): the persisted configuration is gone or unreadable\n'
+                           + lst.text[-900:]).to_json()
+        def listed(name: str) -> T.Optional[str]:
+            for line in lst.out.splitlines():
+                parts = line.split()
+                if len(parts) >= 2 and parts[0] == name:
+                    return parts[1]
+            return None
+        seen = {n: listed(n) for n in ('o', 'n')}
+        pre, post = {'o': 'h1', 'n': '7'}, {'o': 'changed', 'n': '42'}
+        if r.rc != 0:
+            if seen != pre:
+                return Failure(f'io-fault/{cmd}:failed-command-changed-values', fcase,
+                               what + f'`meson configure B` lists {seen}; a command that fails must leave every persisted value as it was ({pre})').to_json()
+            return {'ok': 'failed-cleanly'}
+        if seen not in (pre, post):
+            return Failure(f'io-fault/{cmd}:mixed-values', fcase, what + f'`meson configure B` lists {seen} (neither {pre} nor {post})').to_json()
+        return {'ok': 'survived'}
+    finally:
+        shutil.rmtree(root, ignore_errors=True)
+
+
+def io_fault_family(ctx: Ctx) -> None:
+    import multiprocessing
+    from harness.core import NCPU
+    pyc = os.path.join(ctx.scratch, 'pyc')
+    jobs = []
+    for cmd in ('configure', 'reconfigure'):
+        r0 = _io_fault_worker((cmd, os.path.join(ctx.scratch, f'iof-{cmd}-0'), 0, pyc))
+        assert r0 is not None
+        M = r0['mlist']
+        # the save of the persistent configuration: every mutation of meson-private/coredata.dat, its temporary and its backup
+        pts = [i + 1 for i, (op, path, _) in enumerate(M) if path.startswith('meson-private/coredata.dat')]
+        if not pts:
+            raise HarnessError(f'I/O fault family: `meson {cmd}` performs no mutation of meson-private/coredata.dat*: {M[:8]}')
+        jobs += [(cmd, os.path.join(ctx.scratch, f'iof-{cmd}-{k}'), k, pyc) for k in pts]
+    mp = multiprocessing.get_context('fork')
+    with mp.Pool(min(NCPU, len(jobs))) as pool:
+        results = pool.map(_io_fault_worker, jobs, chunksize=1)
+    for job, res in zip(jobs, results):
+        if res is None:
+            continue
+        if 'sig' in res:
+            ctx.fail(Failure.from_json(res))
+            ctx.ev.case({'io_fault': job[0], 'k': job[2]}, nontrivial=True, cls=f'io-fault/{job[0]}')
+        else:
+            ctx.ev.case({'io_fault': job[0], 'k': job[2]}, nontrivial=True, cls=f'io-fault/{job[0]}:{res["ok"]}',
+                        sample={'command': job[0], 'fault_at_mutation': job[2], 'result': res['ok']})
+
+
 def run(ctx: Ctx) -> None:
+    io_fault_family(ctx)
     _run_fixed_cases(ctx, PROBES)
     for _, case in PROBES:
         ctx.fail(_REPLAYED.get(fp(case)))
@@ -1205,6 +1287,9 @@ def run(ctx: Ctx) -> None:
 
 
 def replay(ctx: Ctx, case: T.Any, doc: dict) -> T.Optional[Failure]:
+    if isinstance(case, dict) and case.get('io_fault'):
+        res = _io_fault_worker((case['cmd'], os.path.join(ctx.scratch, 'iof-replay'), case['k'], os.path.join(ctx.scratch, 'pyc')))
+        return Failure.from_json(res) if res and 'sig' in res else None
     if fp(case) not in _REPLAYED:
         # in a normal run the first call also runs every other saved regression case (in parallel), later calls
         # hit the cache; `./vcheck C08 --replay FILE` runs just that file
